@@ -1,5 +1,5 @@
 SPECIFICATION Spec
 CONSTANTS
-  Kinds = {"unit"}
+  Kinds = {"unit", "nat"}
 INVARIANTS Laws EmitTime
 CHECK_DEADLOCK FALSE
